@@ -6,7 +6,7 @@ Implementation-side oracles: accepted ⇔ names and value tuples pairwise distin
 name / tuple / list, other keys raise InvalidPatchLookup; verify ⇔ independent digest comparison under every single-leaf
 corruption; apply = jsonpatch on a copy, inputs unchanged; digest insensitive to key order.
 """
-import copy, json, hashlib, random
+import math, copy, json, hashlib, random
 import jsonpatch
 from harness import gen_spec
 
@@ -75,9 +75,15 @@ def run(ctx):
         nl = rng.randint(1, 3)
         npatch = rng.randint(1, 5)
         metas = []
+        # a sixth of the sets use floats that differ only far down (neighbouring doubles, a 13th significant digit): distinct values
+        # are distinct keys, however close
+        close = rng.random() < 0.17
+        CLOSE = [0.3, 0.1 + 0.2, math.nextafter(0.3, 0.0), 1664500000.1234, 1664500000.1235, 125.5, 125.5000000000001]
         for _ in range(npatch):
             vals = [rng.choice([rng.randint(0, 3), float(rng.randint(0, 3)), rng.choice([0.5, 1.5]), rng.choice(['a', 'b', '1'])]) for _ in range(nl)]
+            if close: vals = [rng.choice(CLOSE) if rng.random() < 0.7 else v for v in vals]
             metas.append({'name': rng.choice(NAMES), 'values': vals})
+        if close: ctx.tally('close_float_values', 'yes')
         r = rng.random()
         if r < 0.15 and npatch >= 2: metas[-1]['name'] = metas[0]['name']
         elif r < 0.3 and npatch >= 2: metas[-1]['values'] = [float(v) if isinstance(v, int) else (int(v) if isinstance(v, float) and v == int(v) else v) for v in metas[0]['values']]
@@ -97,6 +103,10 @@ def run(ctx):
         for m in metas:
             keys += [m['name'], list(m['values'])]
         keys += [rng.choice(NAMES), 'nope', [9] * nl, [0] * (nl + 1), []]
+        # keys one unit in the last place away from a registered tuple
+        for m in metas[:2]:
+            if any(isinstance(v, float) for v in m['values']):
+                keys.append([math.nextafter(v, math.inf) if isinstance(v, float) else v for v in m['values']])
         rep = lean.ok({'op': 'patchset', 'nlabels': nl, 'patches': [{'name': m['name'], 'values': [render(v) for v in m['values']]} for m in metas],
                        'lookups': [k if isinstance(k, str) else [render(v) for v in k] for k in keys]})
         ctx.count()
